@@ -109,6 +109,12 @@ impl Local {
     }
 }
 
+/// trouble of the machinery itself (never a violation): exit 2
+pub fn infra(msg: &str) -> ! {
+    eprintln!("INFRA: {msg}");
+    std::process::exit(2)
+}
+
 pub fn hash64<T: std::hash::Hash>(t: &T) -> u64 {
     use std::hash::Hasher;
     let mut h = Fnv(0xcbf29ce484222325);
